@@ -218,9 +218,6 @@ class CIF:
         self._authors: list[Person] = []
         self._reducers: list[str] = []
 
-        # Should be long enough to never run out of IDs.
-        self._id_generator = (str(i) for i in range(1, 1_000_000_000))
-
     @property
     def name(self) -> str:
         return self._block.name
@@ -428,6 +425,11 @@ class CIF:
         contact = [author for author in self._authors if author.corresponding]
         regular = [author for author in self._authors if not author.corresponding]
 
+        # IDs need to be unique within one file; start over for every file so that
+        # saving a builder does not change what it writes the next time.
+        # Should be long enough to never run out of IDs.
+        id_generator = (str(i) for i in range(1, 1_000_000_000))
+
         results = []
         roles = {}
         for authors, category in zip(
@@ -435,7 +437,7 @@ class CIF:
         ):
             if not authors:
                 continue
-            data, rols = _serialize_authors(authors, category, self._id_generator)
+            data, rols = _serialize_authors(authors, category, id_generator)
             results.append(data)
             roles.update(rols)
         if roles:
